@@ -173,14 +173,17 @@ def parse_content_disposition(
                 value = unescape(rstripped[1:-1].lstrip("\\/"))
             elif is_token(value):
                 failed = False
-            elif parts:
-                # maybe just ; in filename, in any case this is just
-                # one case fix, for proper fix we need to redesign parser
-                _value = f"{value};{parts[0]}"
-                if is_quoted(_value):
-                    parts.pop(0)
-                    value = unescape(_value[1:-1].lstrip("\\/"))
-                    failed = False
+            elif parts and value.startswith('"'):
+                # ; inside a quoted value: the header was split there, put
+                # the pieces back together up to the closing quote
+                _value = value
+                for taken, piece in enumerate(parts, 1):
+                    _value = f"{_value};{piece}"
+                    if is_quoted(_value.rstrip()):
+                        del parts[:taken]
+                        value = unescape(_value.rstrip()[1:-1].lstrip("\\/"))
+                        failed = False
+                        break
 
             if failed:
                 warnings.warn(BadContentDispositionHeader(header))
